@@ -189,6 +189,10 @@ pub open spec fn no_yield(o: Seq<Ev>, f: Seq<Ev>) -> bool { extends(o, f) && for
 // TRUSTED: derived Hash/Eq on ActionID (a u64) agree
 pub broadcast axiom fn actionid_key_model() ensures #[trigger] obeys_key_model::<ActionID>();
 
+// TRUSTED: std
+pub assume_specification<T, E> [std::result::Result::<T, E>::unwrap_or] (r: std::result::Result<T, E>, d: T) -> (o: T)
+    where E: std::marker::Destruct, T: std::marker::Destruct
+    ensures o == (match r { Ok(v) => v, Err(_) => d });
 // ---- tokio::sync::mpsc stand-in: the search result stream; every item handed to it is a Yield event
 pub mod mpsc {
     use super::*;
